@@ -20,6 +20,8 @@ func checkC20(p *Prog, r *Report) {
 	c20SeriesId(p, r)
 	// the series dates are text in the configured date format
 	dateTextRules(p, r, "C20.R7")
+	// the series a run follows is the one it read for its own id: nothing parsed is kept in the session (shared with C03.R2b)
+	c03Session(p, r, p.SSA(), "C20.R8")
 }
 
 func c20Lookup(p *Prog, r *Report) {
